@@ -22,6 +22,9 @@ pub struct C16Case {
     /// maps (an overwrite of an old key, a new key, a delete) and the retry uses the next call kind
     #[serde(default)]
     pub mid: u8,
+    /// 1: the database directory has a name that is not valid UTF-8 (a Latin-1 `donn\xe9es`)
+    #[serde(default)]
+    pub odd_dir: u8,
 }
 
 #[derive(Serialize, Deserialize, Clone, Debug)]
@@ -204,8 +207,8 @@ fn set_limit(l: Option<u64>) {
     }
 }
 
-fn snapshot_small(dir: &std::path::Path, tag: &str, mid: u8) -> Result<(), String> {
-    let snap = dir.join(format!("snap-small-{tag}"));
+fn snapshot_small(dir: &std::path::Path, snapbase: &std::path::Path, tag: &str, mid: u8) -> Result<(), String> {
+    let snap = snapbase.join(format!("snap-small-{tag}"));
     let _ = std::fs::remove_dir_all(&snap);
     std::fs::create_dir_all(&snap).map_err(|e| format!("mkdir: {e}"))?;
     let files = crate::exec::read_files(dir, SMALL).map_err(|e| format!("read files: {e}"))?;
@@ -238,8 +241,8 @@ fn snapshot_small(dir: &std::path::Path, tag: &str, mid: u8) -> Result<(), Strin
     Ok(())
 }
 
-fn snapshot_equals_model(dir: &std::path::Path, kt: Kt, shape: u8, tag: &str, mid: u8) -> Result<(), String> {
-    let snap = dir.join(format!("snap-{tag}"));
+fn snapshot_equals_model(dir: &std::path::Path, snapbase: &std::path::Path, kt: Kt, shape: u8, tag: &str, mid: u8) -> Result<(), String> {
+    let snap = snapbase.join(format!("snap-{tag}"));
     let _ = std::fs::remove_dir_all(&snap);
     std::fs::create_dir_all(&snap).map_err(|e| format!("mkdir: {e}"))?;
     let files = crate::exec::read_files(dir, "f").map_err(|e| format!("read files: {e}"))?;
@@ -286,8 +289,15 @@ pub fn child_main(req_file: &str) -> i32 {
         libc::signal(libc::SIGXFSZ, libc::SIG_IGN);
     }
     let mut out = ChildOut::default();
-    let dir = std::path::PathBuf::from(&req.dir);
+    let snapbase = std::path::PathBuf::from(&req.dir);
     let c = req.case.clone();
+    // the database directory itself: <req.dir>/db, or a name that is not valid UTF-8
+    let dir = if c.odd_dir > 0 {
+        use std::os::unix::ffi::OsStrExt;
+        snapbase.join(std::ffi::OsStr::from_bytes(b"donn\xe9es"))
+    } else {
+        snapbase.join("db")
+    };
     let stage = std::cell::Cell::new("baseline");
     let res = std::panic::catch_unwind(std::panic::AssertUnwindSafe(|| -> Result<(), String> {
         let _ = std::fs::create_dir_all(&dir);
@@ -351,11 +361,11 @@ pub fn child_main(req_file: &str) -> i32 {
             // nothing may have been swallowed: what is on disk now is the model state
             set_limit(None);
             stage.set("ok-under-limit");
-            snapshot_equals_model(&dir, c.kt, c.shape, "ok", 0).map_err(|e| {
+            snapshot_equals_model(&dir, &snapbase, c.kt, c.shape, "ok", 0).map_err(|e| {
                 format!("the call returned Ok under RLIMIT_FSIZE={} but the files on disk do not hold the current state: {e}", c.limit)
             })?;
             if db_level {
-                snapshot_small(&dir, "ok", 0).map_err(|e| {
+                snapshot_small(&dir, &snapbase, "ok", 0).map_err(|e| {
                     format!("the database-level call returned Ok under RLIMIT_FSIZE={} but the files on disk do not hold the current state: {e}", c.limit)
                 })?;
             }
@@ -421,7 +431,7 @@ pub fn child_main(req_file: &str) -> i32 {
         if let Err(e) = r2 {
             return Err(format!("with the limit lifted the next flush/sync still returns Err: {e}"));
         }
-        snapshot_equals_model(&dir, c.kt, c.shape, "rec", c.mid).map_err(|e| {
+        snapshot_equals_model(&dir, &snapbase, c.kt, c.shape, "rec", c.mid).map_err(|e| {
             format!(
                 "after the recovered {} (returned Ok with the limit lifted{}) the files on disk do not hold the current state: {e}",
                 ["flush", "sync_data", "sync_all", "db.sync_data", "db.sync_all"][retry as usize % 5],
@@ -429,7 +439,7 @@ pub fn child_main(req_file: &str) -> i32 {
             )
         })?;
         if db_level {
-            snapshot_small(&dir, "rec", c.mid).map_err(|e| {
+            snapshot_small(&dir, &snapbase, "rec", c.mid).map_err(|e| {
                 format!("after the recovered database-level sync the files on disk do not hold the current state: {e}")
             })?;
         }
@@ -484,7 +494,7 @@ pub fn thresholds(sizes: [u64; 3]) -> Vec<u64> {
 pub(crate) fn run_child(c: &C16Case, dry: bool, w: &WCtx) -> Result<(ChildOut, std::path::PathBuf), Failure> {
     let dir = w.fresh_dir();
     let req = ChildReq {
-        dir: dir.join("db").to_string_lossy().to_string(),
+        dir: dir.to_string_lossy().to_string(),
         case: c.clone(),
         dry,
     };
@@ -521,6 +531,7 @@ fn sizes_of(shape: u8, kt: Kt, w: &WCtx) -> Result<[u64; 3], Failure> {
         limit: 0,
         kt,
         mid: 0,
+        odd_dir: 0,
     };
     let (o, dir) = run_child(&c, true, w)?;
     w.cleanup(&dir);
@@ -547,6 +558,12 @@ pub(crate) fn run_c16_stage(c: &C16Case, w: &WCtx) -> Result<Report, (Failure, S
         }
         // the directory left behind by the process that exited without running destructors
         let (keys, model) = model_of(c.kt, c.shape, c.mid);
+        if c.odd_dir > 0 {
+            // the verifier takes its path as text: give the directory a plain name first
+            use std::os::unix::ffi::OsStrExt;
+            std::fs::rename(dir.join(std::ffi::OsStr::from_bytes(b"donn\xe9es")), dir.join("db"))
+                .map_err(|e| lb(Failure::new("infra", None, format!("rename of the left-behind directory: {e}"))))?;
+        }
         let req = VerifyReq {
             dir: dir.join("db").to_string_lossy().to_string(),
             maps: vec![DirMap {
@@ -628,6 +645,7 @@ pub(crate) fn case_of(tier: Tier, index: u64, w: &WCtx) -> Result<C16Case, Failu
         limit: t,
         kt,
         mid: ((j / 5) % 2) as u8,
+        odd_dir: ((j / 10) % 3 == 1) as u8,
     })
 }
 
@@ -639,7 +657,7 @@ impl Prop for C16 {
         "fault_enumeration"
     }
     fn rule(&self) -> String {
-        "fault enumeration in a child process (SIGXFSZ ignored): four workload shapes: three so that each file is in turn the largest (values of 150-400 KB; 600 keys of ~1 KB; 65536-bucket table with few entries) and one with exactly 65536 small updates between the baseline flush and the call, a flushed baseline followed by buffered updates made with the limit lifted; then RLIMIT_FSIZE = T and flush / sync_data / sync_all on the map, or sync_data / sync_all on the database object with a second small map (visited after the big one) open and updated; T ranges over the header offsets, every 128 KiB buffer-chunk boundary (-1, 0, +1, +1000) up to beyond the largest file, each file's end (-1, 0, +1) and half of it (quick: 60 thresholds per shape and call spread over that list, thorough: 250). Oracle: Ok under the limit => the files on disk hold the model state (independent decode + copy opened with the crate); Err => (i) reads while the limit is in force may return Err but never a wrong value, (ii) after lifting the limit get of every key, len and a full iteration equal the model, (iii) the next flush/sync returns Ok and the files on disk hold the model state -- in every second case further updates (overwrite of an old key, new key, delete, in both maps) are made between the refused call and the retry, and the retry is another call kind --, also in the directory left behind when the process exits without running destructors (as by SIGKILL). evaluations = (shape, call, T, key type) cases. Non-trivial: T at which the call returned Err; distinct by (shape, call, T, key type)."
+        "fault enumeration in a child process (SIGXFSZ ignored): four workload shapes: three so that each file is in turn the largest (values of 150-400 KB; 600 keys of ~1 KB; 65536-bucket table with few entries) and one with exactly 65536 small updates between the baseline flush and the call, a flushed baseline followed by buffered updates made with the limit lifted; then RLIMIT_FSIZE = T and flush / sync_data / sync_all on the map, or sync_data / sync_all on the database object with a second small map (visited after the big one) open and updated; T ranges over the header offsets, every 128 KiB buffer-chunk boundary (-1, 0, +1, +1000) up to beyond the largest file, each file's end (-1, 0, +1) and half of it (quick: 60 thresholds per shape and call spread over that list, thorough: 250). Oracle: Ok under the limit => the files on disk hold the model state (independent decode + copy opened with the crate); Err => (i) reads while the limit is in force may return Err but never a wrong value, (ii) after lifting the limit get of every key, len and a full iteration equal the model, (iii) the next flush/sync returns Ok and the files on disk hold the model state -- in a third of the cases the database directory has a name that is not valid UTF-8; in every second case further updates (overwrite of an old key, new key, delete, in both maps) are made between the refused call and the retry, and the retry is another call kind --, also in the directory left behind when the process exits without running destructors (as by SIGKILL). evaluations = (shape, call, T, key type) cases. Non-trivial: T at which the call returned Err; distinct by (shape, call, T, key type)."
             .to_string()
     }
     fn assumptions(&self) -> Vec<String> {
